@@ -4,6 +4,21 @@
    result = (0 graph) | (1 class msg) ; class 0 invalid model, 1 model cycle, 2 tuple cycle, 3 constraint tuple cycle, 5 out of fuel *)
 From Verif Require Import Base.Str Base.Sx Base.Outcome Model.Ast Model.WGraph Model.WWeights Model.PGraph Model.WireModel Spec.GraphWeights Spec.GraphShape.
 
+(* nodes all of whose edges lead to nodes already peeled, round after round *)
+Fixpoint peel (fuel : nat) (g : wgraph) (done : list str) : list str :=
+  match fuel with
+  | O => done
+  | S f =>
+      let next := filter (fun n => negb (mem_str (n_id n) done) &&
+                                   forallb (fun e => mem_str (e_to e) done) (edges_from g (n_id n))) (g_nodes g) in
+      match next with
+      | [] => done
+      | _ => peel f g (done ++ map n_id next)
+      end
+  end.
+Definition quick_acyclic (g : wgraph) : bool :=
+  (length (peel (S (length (g_nodes g))) g []) =? length (g_nodes g))%nat.
+
 Definition sx_ntype (t : ntype) : sx := SA (match t with NType => 0 | NTypeRel => 1 | NOperator => 2 | NWildcard => 3 end).
 Definition sx_etype (t : etype) : sx := SA (match t with EDirect => 0 | ERewrite => 1 | ETTU => 2 | EComputed => 3 end).
 Definition sx_wmap (w : wmap) : sx := sx_list (fun kv => SL [sx_str (fst kv); SA (snd kv)]) w.
@@ -50,13 +65,19 @@ Definition dispatch_graph (op : N) (args : list sx) : option sx :=
       | _, _ => None
       end
   | 502, [m] =>
-      (* the SPECIFICATION of Spec/GraphWeights.v on the model's graph: (applicable? ((relation-node weights)...)) *)
+      (* the SPECIFICATION of Spec/GraphWeights.v on the model's graph: (applicable? ((relation-node weights)...)).
+         [heights] unfolds the graph without sharing: on a graph with a cycle it takes time exponential in the number
+         of nodes, so a cheap test (peeling off nodes whose targets are all peeled) goes first; a graph it does not
+         peel completely has a cycle and is outside the theorems' domain anyway *)
       option_map (fun m => match wbuild m with
-                           | Ok g => SL [sx_bool (dag_check g);
-                                         sx_list (fun n => SL [sx_str (n_id n); sx_wmap (spec_weights g (n_id n)); sx_list sx_str (spec_wildcards g (n_id n))])
-                                                 (filter (fun n => match n_type n with NTypeRel => true | _ => false end) (g_nodes g));
-                                         sx_bool (fuel_check g);
-                                         sx_bool (forallb (spec_accepts g) (default_order g))]
+                           | Ok g =>
+                               if quick_acyclic g then
+                                 SL [sx_bool (dag_check g);
+                                     sx_list (fun n => SL [sx_str (n_id n); sx_wmap (spec_weights g (n_id n)); sx_list sx_str (spec_wildcards g (n_id n))])
+                                             (filter (fun n => match n_type n with NTypeRel => true | _ => false end) (g_nodes g));
+                                     sx_bool (fuel_check g);
+                                     sx_bool (forallb (spec_accepts g) (default_order g))]
+                               else SL [sx_bool false; SL []; sx_bool false; sx_bool false]
                            | _ => SL [SA 2; SL []]
                            end) (un_model m)
   | 503, [m] => option_map (fun m => SL [sx_bool (shape_domain m)]) (un_model m)
